@@ -1771,6 +1771,42 @@ def check_C13(ck):
         ck.violation(verif.write_replay("C13", f[0], f[2]), True)
     empty = sum(1 for ls in impl_out.values() for l in ls if l.startswith("class ") and l.endswith("vtbl=[]"))
     nonzero_first = sum(1 for ls in impl_out.values() for l in ls if l.startswith("class ") and " first=0 " not in l)
+    # capacity of the 16-bit codes (D14): around the largest definition index that fits beside the stop flag.
+    # The model cannot be run at this size (its selection is cubic in the number of definitions); it says
+    # (fits16, C13_emits_iff_fits) that the encoder emits iff the index of the ambiguous cell, i.e. the
+    # number of definitions, is below 2^15 - and whatever is emitted must decode to the same calls.
+    cap = []
+    for n_ in ([32767, 32768] if ck.tier == "quick" else [32766, 32767, 32768, 32769, 40000]):
+        cap.append(("capacity-%d" % n_, ["policy gen", "class 1 2 0 2", "method 0 V 2", "def 0 100 2", "ghostdefs 0 %d 2" % (n_ - 1),
+                                         "update", "encode", "call 0 2", "echo D", "decode", "call 0 2"], n_))
+    cap_out, _ = verif.run_impl(ck.exe, [(n, l) for n, l, _ in cap])
+    cap_res = []
+    for name, lines, n_ in cap:
+        out = verif.visible(cap_out.get(name, []))
+        refused = "encode refused" in out
+        k = out.index("@D") if "@D" in out else len(out)
+        before = [l for l in out[:k] if l.startswith(("ran", "raised"))]
+        after = [l for l in out[k:] if l.startswith(("ran", "raised"))]
+        dec = [l for l in out[k:] if l.startswith("decode")]
+        cap_res.append({"definitions": n_, "refused": refused, "calls_before": before, "calls_after": after})
+        if any(l.startswith(("!signal", "!exit")) for l in out) or not before:
+            kind = "the capacity script crashed or printed no call"
+            found = False
+        elif refused:
+            # a refusal is always safe; it must not happen when everything fits
+            if n_ < 32768:
+                kind, found = "the encoder refuses a registry whose values all fit their fields (%d definitions)" % n_, True
+            else:
+                continue
+        elif dec[:1] != ["decode ok"] or before != after:
+            kind, found = ("failing input: with %d definitions of one method the emitted data decodes to tables on which the call behaves "
+                           "differently (index does not fit beside the stop flag)" % n_), True
+        elif n_ >= 32768:
+            kind, found = "the encoder emitted data for a definition index that does not fit (%d definitions), although calls agree" % n_, False
+        else:
+            continue
+        if not any(f_ for _, f_ in ck.violations):
+            ck.violation(verif.write_replay("C13", name, {"property": "C13", "kind": kind, "script": lines, "output": out[-8:]}), found)
     ck.coverage = proof_coverage(ck, ["C13"], {
         "evaluations": len(scripts), "distinct_nontrivial": len({repr(l) for _, l in scripts}),
         "rule": "registries (uni- and multi-methods, error cells, classes no method touches, lattices whose v-tables do not start at slot 0, 30% with a class "
@@ -1778,11 +1814,12 @@ def check_C13(ck):
                 "layout (ASan guards both ends), decoded in place by the real decoder; extents, streams, decoded words and calls are compared with the model, "
                 "and the calls after decoding with the calls after update",
         "classes_with_empty_vtbl": empty, "classes_with_first_slot_nonzero": nonzero_first,
+        "capacity_of_the_16_bit_codes": cap_res,
         "traces_validated_against_impl": len(scripts),
         "samples": [{"name": n_, "script": ls[:30]} for n_, ls in scripts[:1]],
     })
     ck.assumptions = ["acceptance of the emitted text by g++ and clang++ is checked by the thorough tier on a sample; here the text is parsed by the harness",
-                      "encoded values are below 2^14 (method indices, group indices) as the 16-bit encoding requires"]
+                      "at the capacity limit of the 16-bit codes (32768 definitions) the implementation is run without the model, whose selection is cubic in the number of definitions; the expected behaviour there is derived from fits16 / C13_emits_iff_fits, and a 300-definition script of the same shape is in the corpus for the model"]
 
 
 NAME_ALPHA = "abcXY_019"
